@@ -26,6 +26,7 @@ import (
 	"verif/mc/harness"
 	"verif/mc/props/pu"
 	"verif/mc/props/sm2k"
+	"verif/mc/ref/gmref"
 	"verif/mc/tlsk"
 )
 
@@ -274,6 +275,97 @@ func raceScenarios() []raceScenario {
 				_, _, err := gmPair(w.outer, w.ccfg.Clone())
 				return err == nil
 			})})
+	}
+	// a renegotiation (handshake inside Read) while other goroutines write, read the connection state
+	// and close: the scripted reference server asks for two renegotiations in the data phase
+	for _, tlsSuite := range []uint16{gmref.SuiteAESCBC, gmref.SuiteAESGCM} {
+		suite := tlsSuite
+		type rw struct {
+			cl   *gmtls.Conn
+			done chan struct{}
+		}
+		rs = append(rs, raceScenario{name: fmt.Sprintf("renegotiation-while-writing/%04x", suite), rounds: 5, sameAsSolo: false,
+			setup: func() interface{} {
+				p := tlsk.Get()
+				a, b := net.Pipe()
+				ccfg := &gmtls.Config{RootCAs: p.StdRootsG, ServerName: tlsk.ServerName, Time: tlsk.FixedTime, MinVersion: 0x0303, MaxVersion: 0x0303, CipherSuites: []uint16{suite}, Renegotiation: gmtls.RenegotiateFreelyAsClient}
+				cl := gmtls.Client(a, ccfg)
+				w := &rw{cl: cl, done: make(chan struct{})}
+				go func() {
+					defer close(w.done)
+					defer b.Close()
+					q := gmref.New(b, false, gmref.Identity{Certs: [][]byte{p.RSA.Certificate[0]}, RSAKey: p.RSAKey}, rand.Reader)
+					q.UseTLS()
+					q.Suites = []uint16{suite}
+					q.EchoRenegInfo = true
+					q.Run(&gmref.Script{Data: func(q *gmref.Peer) error {
+						for r := 0; r < 2; r++ {
+							if err := q.WriteRecord(gmref.RecApp, []byte("chunk")); err != nil {
+								return err
+							}
+							if res := q.RenegotiateServer(&gmref.Script{}, true); res.Err != nil {
+								return res.Err
+							}
+						}
+						q.WriteRecord(gmref.RecApp, []byte("done!"))
+						for {
+							if err := q.ReadApp(0); err != nil {
+								return nil
+							}
+						}
+					}})
+				}()
+				if err := cl.Handshake(); err != nil {
+					panic(err)
+				}
+				return w
+			},
+			bodies: []func(interface{}) interface{}{
+				func(st interface{}) interface{} {
+					w := st.(*rw)
+					buf := make([]byte, 64)
+					total := 0
+					w.cl.SetReadDeadline(time.Now().Add(20 * time.Second))
+					for total < 15 {
+						n, err := w.cl.Read(buf)
+						total += n
+						if err != nil {
+							break
+						}
+					}
+					return total
+				},
+				func(st interface{}) interface{} {
+					w := st.(*rw)
+					for i := 0; i < 20; i++ {
+						if _, err := w.cl.Write(pu.Msg(i, 700)); err != nil {
+							fmt.Fprintf(os.Stderr, "@@DIFF renegotiation-while-writing/%04x body 1: concurrent %s solo %s\n", suite, fmt.Sprintf("Write %d failed: %v", i, err), "every Write succeeds in any sequential order")
+							return i
+						}
+					}
+					return 20
+				},
+				func(st interface{}) interface{} {
+					w := st.(*rw)
+					for i := 0; i < 20; i++ {
+						if _, err := w.cl.Write(pu.Msg(100+i, 30)); err != nil {
+							fmt.Fprintf(os.Stderr, "@@DIFF renegotiation-while-writing/%04x body 2: concurrent %s solo %s\n", suite, fmt.Sprintf("Write %d failed: %v", i, err), "every Write succeeds in any sequential order")
+							return i
+						}
+					}
+					return 20
+				},
+				func(st interface{}) interface{} {
+					w := st.(*rw)
+					n := 0
+					for i := 0; i < 50; i++ {
+						if w.cl.ConnectionState().HandshakeComplete {
+							n++
+						}
+					}
+					return n >= 0
+				},
+			}})
 	}
 	return rs
 }
